@@ -502,7 +502,8 @@ class Ctx:
         self.next_oid = 1
         self.timeout_ms = timeout_ms
         self.solver = z3.Solver()
-        self.solver.set("timeout", timeout_ms)
+        # feasibility checks are only an optimisation (unknown = explore the path): keep them short
+        self.solver.set("timeout", min(timeout_ms, int((opts or {}).get("feasibility_timeout_ms", 2000))))
         self._nfacts = 0
         self.depth = 0
         self.effects = []           # external effects in order (C08/C20)
@@ -1957,7 +1958,9 @@ def builtin_method(ctx, kind, name, selfv, args, kwargs):
             if kwargs.get("signed"):
                 raise Undecided("signed to_bytes")
             ok = land(n >= 0, n < 256 ** length)
-            if not ctx.branch(ok):
+            # x mod 256^length is in range by construction: no solver call needed
+            trivially = z3.is_app_of(n, z3.Z3_OP_MOD) and z3.is_int_value(n.arg(1)) and n.arg(1).as_long() == 256 ** length
+            if not trivially and not ctx.branch(ok):
                 raise PyRaise(OverflowError)
             if length == 0:
                 return b""
